@@ -1,6 +1,7 @@
 package main
 
 import (
+	"os"
 	"encoding/json"
 	"fmt"
 	"strings"
@@ -176,6 +177,22 @@ func c12AttackGens() []OpGen {
 		{"priv.wasm", 10, func(w *World, r *Rng) *Event {
 			variants := wasmVariants(w, r)
 			v := variants[r.Intn(len(variants))]
+			// prefer a message that the designated contract would get accepted right now (dry run on a discarded branch), so
+			// that for a stranger only the sender guard stands between the message and its effect
+			if des, ok := designatedContracts[w.Cfg.ChainID]; ok && !r.Chance(1, 4) {
+				start := r.Intn(len(variants))
+				for i := 0; i < 8; i++ {
+					c := variants[(start+i)%len(variants)]
+					if os.Getenv("VERIF_DEBUG_C12") == "2" && strings.HasPrefix(c.name, "emission") {
+						fmt.Printf("C12DRY %s: %v | %v\n", c.name, w.wasmDispatch(des[0], c.json, false), w.wasmDispatch(des[1], c.json, false))
+					}
+					if w.wasmDispatch(des[0], c.json, false) == nil || w.wasmDispatch(des[1], c.json, false) == nil {
+						v = c
+						w.Stats.Probe("c12.gen.message_acceptable_from_designated")
+						break
+					}
+				}
+			}
 			var sender string
 			switch r.Intn(6) {
 			case 0:
@@ -205,11 +222,43 @@ func wasmVariants(w *World, r *Rng) []wasmVariant {
 		app = apps[r.Intn(len(apps))].Id
 	}
 	assets := w.App.AssetKeeper.GetAssets(ctx)
-	asset := func() uint64 {
+	var asset = func() uint64 {
 		if len(assets) == 0 {
 			return 1
 		}
 		return assets[r.Intn(len(assets))].Id
+	}
+	ext := uint64(1)
+	pool := uint64(1)
+	cswap := app
+	// mostly aim at the records the scenario really has, so that the privileged path would accept the message
+	if w.Cdp != nil && !r.Chance(1, 4) {
+		app = w.Cdp.AppID
+		cswap = app
+		if len(w.Cdp.Products) > 0 {
+			ext = w.Cdp.Products[r.Intn(len(w.Cdp.Products))].ExtID
+		}
+		if w.Cdp.Debt != nil && r.Bool() {
+			id := w.Cdp.Debt.ID
+			asset = func() uint64 { return id }
+		}
+	}
+	if w.Dex != nil && !r.Chance(1, 4) {
+		cswap = w.Dex.AppID
+		if ps := w.App.LiquidityKeeper.GetAllPools(ctx, cswap); len(ps) > 0 {
+			pool = ps[r.Intn(len(ps))].Id
+		}
+	}
+	// messages that mint or burn the app's governance token need an app that has one
+	gov := app
+	if apps, ok := w.App.AssetKeeper.GetApps(ctx); ok && !r.Chance(1, 5) {
+		for _, a := range apps {
+			for _, t := range a.GenesisToken {
+				if t.IsGovToken {
+					gov = a.Id
+				}
+			}
+		}
 	}
 	one := sdk.NewInt(1000)
 	d := decStr("0.01")
@@ -233,11 +282,11 @@ func wasmVariants(w *World, r *Rng) []wasmVariant {
 		{"add_auction_params", bindings.ComdexMessages{MsgAddAuctionParams: &bindings.MsgAddAuctionParams{AppID: app, AuctionDurationSeconds: 100, Buffer: decStr("1.2"), Cusp: decStr("0.7"), Step: 1, PriceFunctionType: 1, SurplusID: 1, DebtID: 2, DutchID: 3, BidDurationSeconds: 50}}},
 		{"burn_gov_tokens_for_app", bindings.ComdexMessages{MsgBurnGovTokensForApp: &bindings.MsgBurnGovTokensForApp{AppID: app, From: addr, Amount: sdk.NewCoin("uharbor", one)}}},
 		{"add_esm_trigger_params", bindings.ComdexMessages{MsgAddESMTriggerParams: &bindings.MsgAddESMTriggerParams{AppID: app, TargetValue: sdk.NewCoin("uharbor", one), CoolOffPeriod: 100, AssetID: []uint64{asset()}, Rates: []uint64{1000000}}}},
-		{"emission_rewards", bindings.ComdexMessages{MsgEmissionRewards: &bindings.MsgEmissionRewards{AppID: app, Amount: one, EmissionAmount: 1, ExtendedPair: []uint64{1}, VotingRatio: []sdk.Int{one}}}},
-		{"foundation_emission", bindings.ComdexMessages{MsgFoundationEmission: &bindings.MsgFoundationEmission{AppID: app, Amount: one, FoundationAddress: []string{addr.String()}}}},
-		{"rebase_mint", bindings.ComdexMessages{MsgRebaseMint: &bindings.MsgRebaseMint{AppID: app, Amount: one, ContractAddr: addr}}},
+		{"emission_rewards", bindings.ComdexMessages{MsgEmissionRewards: &bindings.MsgEmissionRewards{AppID: gov, Amount: one, EmissionAmount: 1, ExtendedPair: []uint64{ext}, VotingRatio: []sdk.Int{one}}}},
+		{"foundation_emission", bindings.ComdexMessages{MsgFoundationEmission: &bindings.MsgFoundationEmission{AppID: gov, Amount: one, FoundationAddress: []string{addr.String()}}}},
+		{"rebase_mint", bindings.ComdexMessages{MsgRebaseMint: &bindings.MsgRebaseMint{AppID: gov, Amount: one, ContractAddr: addr}}},
 		{"get_surplus_fund", bindings.ComdexMessages{MsgGetSurplusFund: &bindings.MsgGetSurplusFund{AppID: app, AssetID: asset(), ContractAddr: addr, Amount: sdk.NewCoin("ucmst", one)}}},
-		{"emission_pool_rewards", bindings.ComdexMessages{MsgEmissionPoolRewards: &bindings.MsgEmissionPoolRewards{AppID: app, CswapAppID: app, Amount: one, Pools: []uint64{1}, VotingRatio: []sdk.Int{one}}}},
+		{"emission_pool_rewards", bindings.ComdexMessages{MsgEmissionPoolRewards: &bindings.MsgEmissionPoolRewards{AppID: gov, CswapAppID: cswap, Amount: one, Pools: []uint64{pool}, VotingRatio: []sdk.Int{one}}}},
 	}
 	out := make([]wasmVariant, 0, len(ms))
 	for _, x := range ms {
@@ -258,26 +307,35 @@ func (noopMessenger) DispatchMsg(ctx sdk.Context, contractAddr sdk.AccAddress, c
 
 func init() {
 	adminOps["wasm_dispatch"] = func(w *World, ev *Event) (err error) {
-		sender, e := sdk.AccAddressFromBech32(ev.Args["sender"])
-		if e != nil {
-			return e
-		}
-		a := w.App
-		m := comdexwasm.CustomMessageDecorator(a.LockerKeeper, a.Rewardskeeper, a.AssetKeeper, a.CollectorKeeper, a.LiquidationKeeper, a.AuctionKeeper,
-			a.TokenmintKeeper, a.EsmKeeper, a.VaultKeeper, a.LiquidityKeeper)(noopMessenger{})
-		// a contract call is one message of a transaction: atomic
-		cctx, write := w.WCtx().CacheContext()
-		defer func() {
-			if r := recover(); r != nil {
-				err = fmt.Errorf("panic: %v", r)
-			}
-		}()
-		_, _, err = m.DispatchMsg(cctx, sender, "", wasmvmtypes.CosmosMsg{Custom: json.RawMessage(ev.Args["msg"])})
-		if err == nil {
-			write()
-		}
-		return err
+		return w.wasmDispatch(ev.Args["sender"], ev.Args["msg"], true)
 	}
+}
+
+// wasmDispatch hands a custom contract message to the app's message plugin as contract `sender`. A contract call is one
+// message of a transaction: atomic. With commit=false the effects are discarded (dry run used by the generator).
+func (w *World) wasmDispatch(senderBech, msg string, commit bool) (err error) {
+	sender, e := sdk.AccAddressFromBech32(senderBech)
+	if e != nil {
+		return e
+	}
+	a := w.App
+	m := comdexwasm.CustomMessageDecorator(a.LockerKeeper, a.Rewardskeeper, a.AssetKeeper, a.CollectorKeeper, a.LiquidationKeeper, a.AuctionKeeper,
+		a.TokenmintKeeper, a.EsmKeeper, a.VaultKeeper, a.LiquidityKeeper)(noopMessenger{})
+	base := w.Ctx()
+	if commit {
+		base = w.WCtx()
+	}
+	cctx, write := base.CacheContext()
+	defer func() {
+		if r := recover(); r != nil {
+			err = fmt.Errorf("panic: %v", r)
+		}
+	}()
+	_, _, err = m.DispatchMsg(cctx, sender, "", wasmvmtypes.CosmosMsg{Custom: json.RawMessage(msg)})
+	if err == nil && commit {
+		write()
+	}
+	return err
 }
 
 // ---------- oracle ----------
@@ -375,6 +433,9 @@ func (o *c12Oracle) After(w *World, ev *Event, res Result) *Violation {
 		if authorised {
 			if res.Err == nil {
 				w.Stats.Probe("c12.contract_message_from_designated_accepted")
+				w.Stats.Probe("c12.designated_accepted:" + ev.Args["variant"])
+			} else if os.Getenv("VERIF_DEBUG_C12") != "" {
+				fmt.Printf("C12DEBUG designated %s rejected: %v\n", ev.Args["variant"], res.Err)
 			}
 			return nil
 		}
